@@ -1416,6 +1416,29 @@ func gen(c *lib.Ctx, rng *rand.Rand) []c08case {
 		apiSeq("GET", "/api/cmaf-ingests/999999/step", "")
 		apiSeq("GET", "/api/cmaf-ingests/x/step", "")
 	}
+	// a stepped session for every configuration family: what the session goroutine does with the
+	// configuration only shows when it is stepped (a panic there ends the whole process)
+	{
+		fams := []string{"segtimeline_1", "segtimelinenr_1", "timesubsstpp_en", "segtimeline_1/timesubsstpp_en,sv", "segtimelinenr_1/timesubswvtt_en", "segtimeline_1/timesubswvtt_en",
+			"periods_60", "chunkdur_0.5/ato_1", "eccp_cenc", "scte35_2", "snr_7/segtimelinenr_1", "startrel_-20/stoprel_20", "tsbd_10/segtimeline_1", "segtimeline_1/ato_1.5/chunkdur_0.5"}
+		if c.Thorough() {
+			for _, k := range keys {
+				fams = append(fams, k+"_1", "segtimeline_1/"+k+"_1")
+			}
+		}
+		for i, f := range fams {
+			tail := "testpic_2s/Manifest.mpd"
+			if i%5 == 4 {
+				tail = "testpic_8s/Manifest.mpd"
+			}
+			body, _ := json.Marshal(map[string]any{"destRoot": "{sink}", "destName": "d", "livesimURL": "/livesim2/" + f + "/" + tail, "testNowMS": 425842, "duration": 4})
+			apiSeq("POST", "/api/cmaf-ingests", string(body))
+			apiSeq("GET", "/api/cmaf-ingests/{id}/step", "")
+			apiSeq("GET", "/api/cmaf-ingests/{id}/step", "")
+			apiSeq("GET", "/api/cmaf-ingests/{id}", "")
+			apiSeq("DELETE", "/api/cmaf-ingests/{id}", "")
+		}
+	}
 	apiSeq("POST", "/api/cmaf-ingests", `{"destRoot":"http://127.0.0.1:9","destName":"d","livesimURL":"/livesim2/testpic_2s/Manifest.mpd","testNowMS":100000,"duration":4}`)
 	for i := 0; i < 2; i++ {
 		apiSeq("GET", "/api/cmaf-ingests/{id}/step", "")
